@@ -399,6 +399,9 @@ def run(tier: str, only=None) -> int:
                         if tier == "quick" and size > (1 << 20) and prog != "echo":
                             continue
                         cells.append((tr, model, prog, size))
+        if tier == "quick":
+            # the gevent exec model on every transport (small echo only)
+            cells += [(tr, "gevent", "echo", rsizes[0]) for tr in ("popen", "python", "socket", "via")]
         res = pmap(lambda chunk: [real_cell(c) for c in chunk], [cells[i::16] for i in range(16)])
         flat = {c: o for chunk in res for c, o in chunk}
         for c, o in flat.items():
